@@ -2,6 +2,7 @@ package mon
 
 import (
 	"sync"
+	"time"
 
 	sse "github.com/tmaxmax/go-sse"
 )
@@ -21,6 +22,7 @@ type RLog struct {
 	Start   int64
 	End     int64
 	ArgIDIn string // put: ID of the argument as given
+	VTime   time.Time // time.Now() at the start of the call (virtual inside a synctest bubble)
 }
 
 // RecReplayer wraps a real replayer (or nothing) and records / faults the calls.
@@ -53,7 +55,7 @@ func (r *RecReplayer) Put(m *sse.Message, topics []string) (*sse.Message, error)
 	r.puts++
 	n := r.puts
 	r.mu.Unlock()
-	e := RLog{Kind: "put", Token: Token(m), Topics: append([]string(nil), topics...), Start: start, ArgIDIn: m.ID.String()}
+	e := RLog{Kind: "put", Token: Token(m), Topics: append([]string(nil), topics...), Start: start, ArgIDIn: m.ID.String(), VTime: time.Now()}
 	fault := r.PutFault[n]
 	e.Fault = fault
 	var out *sse.Message
@@ -94,7 +96,7 @@ func (r *RecReplayer) Replay(sub sse.Subscription) error {
 	if c, ok := sub.Client.(*RecClient); ok {
 		name = c.Name
 	}
-	e := RLog{Kind: "replay", Sub: name, Start: start, ID: sub.LastEventID.String(), IDSet: sub.LastEventID.IsSet(), Topics: append([]string(nil), sub.Topics...)}
+	e := RLog{Kind: "replay", Sub: name, Start: start, ID: sub.LastEventID.String(), IDSet: sub.LastEventID.IsSet(), Topics: append([]string(nil), sub.Topics...), VTime: time.Now()}
 	fault := r.ReplayFault[n]
 	e.Fault = fault
 	if r.OnReplay != nil {
